@@ -53,17 +53,22 @@ where
         if self.q_vals.len() < 2 {
             return;
         }
-        let mut x: Vec<T> = vec![T::zero(); self.q_vals.len()];
-        let mut y: Vec<T> = vec![T::zero(); self.q_vals.len()];
-        for count in 1..self.q_vals.len() {
+        // x[1] is the newest value, x[len] the oldest (the paper's loops are inclusive)
+        let mut x: Vec<T> = vec![T::zero(); self.q_vals.len() + 1];
+        for count in 1..=self.q_vals.len() {
             x[count] = *self.q_vals.get(self.q_vals.len() - count).unwrap();
-            y[count] = -T::from(count).expect("can convert");
         }
 
         let mut num = T::zero();
-        for count in 2..self.q_vals.len() {
-            for k in 1..count - 1 {
-                num = num - ((x[count] - x[k]).signum());
+        for count in 2..=self.q_vals.len() {
+            for k in 1..count {
+                // sign with sign(0) = 0: tied values are neither concordant nor discordant
+                let diff = x[count] - x[k];
+                if diff > T::zero() {
+                    num = num - T::one();
+                } else if diff < T::zero() {
+                    num = num + T::one();
+                }
             }
         }
 
